@@ -11,6 +11,7 @@ import subprocess
 import tempfile
 
 from common import *
+import c13_browser
 import py2coq
 import js2coq
 
@@ -330,6 +331,14 @@ def main(tier):
                                  if isinstance(broken[0].get('detail'), dict) else broken[0].get('obligation'),
                                  'broken': broken,
                                  'searched': f'{len(cases)} node-vs-python cases, none differ'}, found_input=False)
+    # ---- consequence clause: the totals the application recomputes in the browser --------------------------------------
+    bcov, bbroken, bfresh = c13_browser.check(run, tier, os.path.join(SRC, 'spending_report.js'))
+    run.cov.update(bcov)
+    if bbroken and not bfresh:
+        run.violation('broken-browser', {'kind': bbroken[0]['kind'], 'obligation': bbroken[0].get('obligation'), 'broken': bbroken,
+                                         'searched': f"{bcov.get('app_filter_evaluations', 0)} (data, filter) evaluations of the real "
+                                                     'application against the command line, none differs beyond the listed finding'},
+                      found_input=False)
     run.finish()
 
 
@@ -358,6 +367,16 @@ def replay(path):
         print(f'replay: {obj.get("kind")} — re-running the quick check')
         main('quick')
     c = obj['case']
+    if obj.get('part') == 'browser-totals':
+        laws, rr = c13_browser.replay_case(c, os.path.join(SRC, 'spending_report.js'))
+        fresh = [l for l, k in laws if not k]
+        print(json.dumps({'laws_failing': [l for l, _ in laws], 'known_finding_only': bool(laws) and not fresh, 'observed': rr}, indent=1)[:6000])
+        if fresh or (laws and obj.get('signature') is None):
+            print(f'VIOLATION property=C13 replay={path}')
+            return 1
+        if laws:
+            print(f'KNOWN-FINDING: property=C13 {c13_browser.SIG} (reproduced)')
+        return 0
     if c.get('sequence'):
         d = seq_differs(c['sequence'])
         print(json.dumps({'sequence': c['sequence'], 'differs_in_per_call': d}, indent=1))
